@@ -1328,6 +1328,12 @@ fn huge_frames(part: &mut Part) {
         part.evaluations += 1;
         part.distinct_nontrivial += 1;
         part.transitions += 1;
+        if !text.contains("CHILD-STARTED") {
+            // the limit could not be set or the child did not start: nothing was judged
+            eprintln!("MACHINERY: huge-frame child for size {} did not start under `ulimit -v 1048576`: {} {}", sizes[i], status, text);
+            part.exhaustive = false;
+            continue;
+        }
         if code != Some(0) || !text.contains("OK") {
             part.violation(
                 "violations:huge-frame-size",
@@ -1355,6 +1361,7 @@ pub fn hugeframe_child(size: &str) {
             Ok(n)
         }
     }
+    println!("CHILD-STARTED");
     let size: u32 = size.parse::<u64>().unwrap() as u32;
     let mut data = vec![1u8, 0, 1];
     data.extend_from_slice(&size.to_be_bytes());
